@@ -4,17 +4,21 @@ accepted assignment in the program (expectations from the operation list only); 
 import apistream
 import judge
 
-EXTRA_COQ_FILES = ('GenFacts/SchemaOK.v',)
+EXTRA_COQ_FILES = ('GenFacts/SchemaOK.v', 'GenFacts/SitesOK.v')
 RULE = ('seeded random programs: all 21 object types x attribute subsets x value domains (ints across code ranges, floats incl. '
         'non-finite and signed zero, strings 0..300 (some >16383) chars, aware/naive datetimes and date strings, enum members and '
         'free strings, single/multi/nested values, units as str or Unit member) x route (keyword, dict, AttrSetup, later .value/.units, '
         're-assignment with a value of another kind (int<->float, text<->object) after a first write, then a second write). '
         'Distinct by (object type, attribute label). Each decoded attribute is compared with the assignment; never-assigned '
-        'attributes must be absent except the documented write-time defaults.')
+        'attributes must be absent except the documented write-time defaults. Plus 50/600 specifications written twice with the attribute state of '
+        'every object compared before / after each write against the write-time sites the translator finds in the source (K-write-sites).')
 ASSUMPTIONS = ['int()/float()/strptime meaning of strings and datetime arithmetic are CPython (trusted)',
                'ints of magnitude >= 2^53 assigned to float-coded attributes are outside the modelled domain']
-PARTIAL = ('proved: assignment frame rule (C05_assign_value/units) and value read-back (C05_value_readback); the end-to-end statement '
-           '"decoded attribute = last accepted assignment" is checked per run on implementation output, not proved as one theorem')
+PARTIAL = ('proved: assignment frame rule (C05_assign_value/units), API frame rule (C05_api_frame), value read-back, record = set '
+           '(C05_record_is_the_set) and C05_write_changes_only_defaults (a write, successful or not, changes values / units only at the '
+           'write-time default sites regenerated from the source, and only where nothing or a falsy value had been given); what remains '
+           'checked per run rather than proved is the composition of these links into the single end-to-end statement '
+           '"decoded attribute = last accepted assignment", and the CPython meaning of raw values (int/float/str/datetime)')
 
 
 def run(ctx):
@@ -41,6 +45,88 @@ def run(ctx):
         ctx.evaluations += ncmp
         if k % 11 == 0:
             ctx.sample({'stream': 'K-fidelity', 'flavor': flavor, 'objects': [(e.tkey, e.name, e.copy, sorted(e.assign)) for e in list(objs.values())[:6]]})
+    write_sites(ctx)
+
+
+def _fp(v):
+    """Fingerprint of an attribute value that survives comparison (NaN-safe, objects by identity)."""
+    import numpy as np
+    from dliswriter.logical_record.core.eflr import EFLRItem
+    if isinstance(v, (list, tuple)):
+        return ('l',) + tuple(_fp(x) for x in v)
+    if isinstance(v, EFLRItem):
+        return ('item', id(v))
+    if isinstance(v, (float, np.floating)):
+        return ('f', float(v).hex())
+    if isinstance(v, np.ndarray):
+        return ('a', str(v.dtype), v.shape, v.tobytes())
+    return (type(v).__name__, repr(v))
+
+
+def _falsy(v):
+    try:
+        return not v
+    except Exception:  # noqa  (ambiguous truth value of an array)
+        return False
+
+
+def _snapshot(df, cls_key):
+    from dliswriter.logical_record.core.eflr import EFLRSet
+    snap = {}
+    for x in df.generator([[] for _ in df.logical_files]):
+        if isinstance(x, EFLRSet):
+            for it in x.get_all_eflr_items():
+                tk = cls_key.get(type(it).__name__)
+                if tk is None:
+                    continue
+                snap[id(it)] = (tk, it.name, {an: (_fp(a._value), a._units, _falsy(a._value)) for an, a in it.attributes.items()})
+    return snap
+
+
+def write_sites(ctx):
+    """Tie of C05_write_changes_only_defaults to the implementation: the attribute state of every object before and after
+    DLISFile.write (successful or not) differs only at the sites the translator found in the source (= the sites of the
+    theorem, GenFacts/SitesOK.v), and there only where no (or a falsy) value / no units had been given."""
+    import impl
+    import specgen
+    import gen_tables
+    sites = gen_tables.compute_sites()
+    A = specgen.api()
+    cls_key = {A[t]['item_cls'].__name__: t for t in A}
+    rng = ctx.rng('write-sites')
+    n = 50 if ctx.tier == 'quick' else 600
+    for k in range(n):
+        spec = specgen.gen_spec(rng, vrl=rng.choice([1024, 8192]), n_frames=rng.choice([1, 1, 2]))
+        df, objs, outs = specgen.build(spec)
+        if df is None:
+            continue
+        for rnd in (1, 2):         # the second write starts from the state the first one left
+            before = _snapshot(df, cls_key)
+            w = impl.outcome(lambda: impl.write_real(df))
+            after = _snapshot(df, cls_key)
+            ctx.count('K-write-sites', key=(k, rnd))
+            ctx.stat('K-write-sites', 'write_' + (w[0] if w[0] == 'ok' else 'raised:' + str(w[1])))
+            for key, (tk, name, attrs) in before.items():
+                if key not in after:
+                    ctx.violation('object-disappeared-during-write', {'spec': spec, 'type': tk, 'name': name})
+                    continue
+                for an, (fp0, u0, falsy0) in attrs.items():
+                    fp1, u1, _ = after[key][2][an]
+                    ctx.evaluations += 1
+                    if fp1 != fp0:
+                        ctx.stat('K-write-sites', 'value_set:%s.%s' % (tk, an))
+                        derived = (tk, an) == ('channel', 'representation_code')
+                        if (tk, an, False) not in sites or not (falsy0 or derived):
+                            ctx.violation('write-changed-a-value-it-may-not-change',
+                                          {'spec': spec, 'type': tk, 'name': name, 'attribute': an, 'before': repr(fp0)[:200], 'after': repr(fp1)[:200],
+                                           'is_default_site': (tk, an, False) in sites, 'write': w[0] if w[0] == 'ok' else list(w), 'round': rnd})
+                    if u1 != u0:
+                        ctx.stat('K-write-sites', 'units_set:%s.%s' % (tk, an))
+                        if (tk, an, True) not in sites or u0 is not None:
+                            ctx.violation('write-changed-units-it-may-not-change',
+                                          {'spec': spec, 'type': tk, 'name': name, 'attribute': an, 'before': str(u0), 'after': str(u1), 'round': rnd})
+            if w[0] != 'ok':
+                break
 
 
 def replay(ctx, data):
